@@ -26,6 +26,15 @@ CasesOf(c) ==
     [curve |-> c, label |-> "valid", what |-> "8 leading zeros", scalar |-> Zeros(8) \o Rep(L - 8, 254)],
     [curve |-> c, label |-> "valid", what |-> "leading zeros stripped", scalar |-> Rep(L - 3, 201)],
     [curve |-> c, label |-> "valid", what |-> "padded with an extra zero octet", scalar |-> Zeros(1) \o Zeros(1) \o Rep(L - 1, 77)],
+    \* zero runs at the low end and in the middle (machine-word borders: a test on the low 32 / 64 bits, or on one limb, reads these as zero)
+    [curve |-> c, label |-> "valid", what |-> "2^32 (low 4 octets zero)",   scalar |-> Zeros(L - 5) \o <<1>> \o Zeros(4)],
+    [curve |-> c, label |-> "valid", what |-> "2^64 (low 8 octets zero)",   scalar |-> Zeros(L - 9) \o <<1>> \o Zeros(8)],
+    [curve |-> c, label |-> "valid", what |-> "2^128 (low 16 octets zero)", scalar |-> Zeros(L - 17) \o <<1>> \o Zeros(16)],
+    [curve |-> c, label |-> "valid", what |-> "high octets set, low 8 octets zero", scalar |-> Zeros(1) \o Rep(L - 9, 171) \o Zeros(8)],
+    [curve |-> c, label |-> "valid", what |-> "2^64 + 1 (a zero limb in the middle)", scalar |-> Zeros(L - 9) \o <<1>> \o Zeros(7) \o <<1>>],
+    [curve |-> c, label |-> "valid", what |-> "low octet zero",              scalar |-> Zeros(1) \o Rep(L - 2, 93) \o Zeros(1)],
+    [curve |-> c, label |-> "valid", what |-> "only the low octet set (255)", scalar |-> Zeros(L - 1) \o <<255>>],
+    [curve |-> c, label |-> "valid", what |-> "high bit of every octet set", scalar |-> Zeros(1) \o Rep(L - 1, 128)],
     [curve |-> c, label |-> "invalid", what |-> "n",            scalar |-> n],
     [curve |-> c, label |-> "invalid", what |-> "all ones",     scalar |-> Rep(L, 255)],
     [curve |-> c, label |-> "invalid", what |-> "one octet too long", scalar |-> <<1>> \o Zeros(L)],
